@@ -513,10 +513,19 @@ func (e *Env) Close() {
 	go func() {
 		defer close(done)
 		defer func() { recover() }()
+		// the block-sync reactor first, as the node's shutdown does: removing the last peers of a syncing node makes
+		// its scheduler declare the sync finished and switch to consensus, which must not race with the stop below
+		e.BC.Stop()
+		if e.Mode == "syncing" {
+			// (a switch to consensus that the reactor's event loop had already begun must have completed before the
+			// consensus state is stopped: Start racing with Stop makes SwitchToConsensus panic, at shutdown only)
+			for i := 0; i < 400 && goroutineOf("blockchain.(*switchIO).trySwitchToConsensus") != ""; i++ {
+				time.Sleep(5 * time.Millisecond)
+			}
+		}
 		for _, p := range e.SW.Peers().List() {
 			e.SW.StopPeerGracefully(p)
 		}
-		e.BC.Stop()
 		e.TxR.Stop()
 		e.EvR.Stop()
 		if e.Cons.IsRunning() {
